@@ -1,6 +1,7 @@
 import IPT.Lemmas.Angle
 import IPT.Lemmas.ExtLat
 import IPT.Thm.C13
+import IPT.Thm.C07
 import IPT.Spec.Vsop
 /-
   C01 — Dhuhr is the instant of local apparent solar noon (PARTIAL).
@@ -97,6 +98,23 @@ theorem dhuhr_always_reported (p : Params α) (hours : Hours α) (env : Env α) 
           obtain ⟨x, hx⟩ := Option.isSome_iff_exists.mp this
           simp [hx]
       · simp only [Except.ok.injEq] at hh1; subst hh1; simpa [Hours.toPH] using hd
+
+
+/-- **Dhuhr is reported by the public entry point, whatever the policy**: in every result of
+    `prayerTimesDt` (all parameter sets, places, dates, weather) the Dhuhr entry is present - the
+    instantiation of `dhuhr_always_reported` at the real environment, carried through the assembly
+    of the result (`C07.prayerTimesDt_entries`) -/
+theorem dhuhr_reported_api (p : Params α) (loc : Location α) (rd : Int) (w : Option (Weather α)) (d : DayTimes)
+    (h : prayerTimesDt p loc rd w = .ok d) : d.dhuhr.isSome = true := by
+  obtain ⟨hh, h1, _, _, hd, _⟩ := C07.prayerTimesDt_entries p loc rd w d h
+  have := dhuhr_always_reported p _ _ hh (dhuhr_always_some p _ _)
+    (fun off => by simp [envOf, getHours]) h1
+  obtain ⟨x, hx⟩ := Option.isSome_iff_exists.mp this
+  rw [hx] at hd
+  simp only [optTime] at hd
+  split at hd
+  · simp at hd
+  · simp only [Except.ok.injEq] at hd; rw [← hd]; rfl
 
 end generic
 
